@@ -72,6 +72,7 @@ static void gen_traffic(Rng &r, J &ops, const std::string &at, const std::string
 		op.set("body", bodies[r.range(0, 3)]);
 		op.set("dst", dst); op.set("src", at == "srv" ? "ext" : at);
 		if (r.chance(0.07)) { static const char *shapes[] = {"v6", "short_iplen", "long_iplen", "noip"}; op.set("shape", shapes[r.range(0, 3)]); }
+		else if (r.chance(0.12)) { static const int ks[] = {1, 2, 3, 8, 15, 16, 16, 17}; op.set("kfrag", ks[r.range(0, 7)]); op.set("dfrag", (int)r.range(-1, 1)); }   // sized at run time to k fragments +-1 byte
 		ops.push(op);
 	}
 }
